@@ -39,7 +39,7 @@ type checker struct {
 	dayChanged bool
 	verbose    io.Writer // replay: print model vs observed
 	maxDepth   int
-	dry        bool // VERIF_C06_DRY=1: model-level search only (sizing of the alphabets)
+	dry        bool   // VERIF_C06_DRY=1: model-level search only (sizing of the alphabets)
 	vtrace     string // ptrace supervisor (interleaving family)
 	self       string // this binary (reader child role)
 }
